@@ -86,6 +86,7 @@ pub fn check(case: &Case, ctx: &mut CaseCtx) {
     let mut seq: u32 = 0;
     let mut browsed: BTreeSet<usize> = BTreeSet::new();
     let mut searched: BTreeSet<usize> = BTreeSet::new();
+    let mut deadlines: std::collections::BTreeMap<usize, u64> = Default::default();
     let mut registered: BTreeSet<usize> = BTreeSet::new();
     // records that entered while a search cared about them: (name kind, expiry)
     let mut needed_peak: u64 = 0;
@@ -161,6 +162,13 @@ pub fn check(case: &Case, ctx: &mut CaseCtx) {
         w.settle();
         let now = w.now;
         needed_now.retain(|x| x.0 > now);
+        // a search with a timeout ends on its own
+        for (h, t) in deadlines.clone() {
+            if now >= t {
+                searched.remove(&h);
+                deadlines.remove(&h);
+            }
+        }
         let dm = &mut w.daemons[di];
         dm.set_now(now);
         match op {
@@ -179,6 +187,10 @@ pub fn check(case: &Case, ctx: &mut CaseCtx) {
             Op::Resolve { host, timeout_ms } => {
                 if dm.resolve_hostname(HOSTS2[*host % 2], *timeout_ms).is_ok() {
                     searched.insert(*host % 2);
+                    match timeout_ms {
+                        Some(t) => deadlines.insert(*host % 2, now + *t),
+                        None => deadlines.remove(&(*host % 2)),
+                    };
                 }
             }
             Op::StopResolve { host } => {
@@ -372,7 +384,10 @@ pub fn check(case: &Case, ctx: &mut CaseCtx) {
             let _ = dm.stop_browse(TYPES3[*t]);
         }
         for h in searched.iter() {
-            let _ = dm.stop_resolve_hostname(HOSTS2[*h]);
+            // (a search that has a timeout is left to end by it)
+            if !deadlines.contains_key(h) {
+                let _ = dm.stop_resolve_hostname(HOSTS2[*h]);
+            }
         }
     }
     w.settle();
@@ -412,7 +427,7 @@ pub fn check(case: &Case, ctx: &mut CaseCtx) {
     // timers: the periodic interface check, and what the registrations keep (nothing periodic)
     let t1 = m1.get("timer").copied().unwrap_or(0);
     let t2 = m2.get("timer").copied().unwrap_or(0);
-    let allowed = 2 + if long_lived > 0 || hostile_seen { 6 * (long_lived as i64).max(left_total) } else { 0 };
+    let allowed = 1 + if long_lived > 0 || hostile_seen { 6 * (long_lived as i64).max(left_total) } else { 0 };
     // timers of record copies whose TTL reaches beyond the wait stay in the heap even when the
     // records themselves are forgotten (stop_browse): stale, but not growing
     let far_copies: u64 = copies_now.iter().filter(|x| x.0 > rest_time).map(|x| x.1).sum();
@@ -488,7 +503,7 @@ fn strategy() -> BoxedStrategy<Case> {
 pub fn run(tier: Tier) -> i32 {
     let mut agg = Agg::new("C20", tier);
     agg.assume("the sizes are the daemon's own: get_metrics() cached-ptr/srv/txt/addr/nsec/subtype and timer; 'needed' = records of datagrams that an open search accounts for (an announcement of a browsed type: its 4 records; an address of a searched host name), counted until their TTL or until the search is stopped");
-    agg.assume("bounds: cached records <= needed records; pending timers <= 6 per needed record + 8 per search and per registration and interface family + 8; at rest (every search stopped, the longest TTL + 15 s passed) no cached records and at most 2 timers, not growing over another hour");
+    agg.assume("bounds: cached records <= needed records; pending timers <= 6 per needed record + 8 per search and per registration and interface family + 8; at rest (every search stopped, the longest TTL + 15 s passed) no cached records and one timer (the periodic interface check), not growing over another hour");
     run_regressions::<Case>(&mut agg, "traffic", &check);
     run_part(
         &mut agg,
